@@ -43,11 +43,17 @@ def build(rng):
     class MaskedLinear(nn.Linear):   # subclass of a supported layer: class-name patterns are searched anywhere in the name
         pass
 
+    class GatedLinear(nn.Linear):    # a supported type that is NOT a leaf: it owns parameters and holds a child layer
+        def __init__(self, n):
+            super().__init__(n, n); self.gate = nn.Linear(n, n)
+        def forward(self, x):
+            return super().forward(x) * torch.sigmoid(self.gate(x))
+
     kind = rng.choice(['mlp', 'conv', 'conv_o1', 'shared'])
     if kind == 'mlp':
         a, b, c = rng.randint(2, 5), rng.randint(2, 5), rng.randint(1, 4)
         layers = [('fc1', nn.Linear(a, b)), ('bn', nn.BatchNorm1d(b)), ('act', nn.ReLU()), ('scale', Scale()),
-                  ('fc2', nn.Linear(b, b, bias=rng.random() < 0.5)), ('ln', nn.LayerNorm(b)),
+                  ('fc2', nn.Linear(b, b, bias=rng.random() < 0.5)), ('ln', nn.LayerNorm(b))] + ([('gated', GatedLinear(b))] if rng.random() < 0.5 else []) + [
                   ('head', (MaskedLinear if rng.random() < 0.5 else nn.Linear)(b, c))]
         x_shape = [rng.randint(2, 5), a]
     elif kind == 'conv':
